@@ -591,7 +591,7 @@ func runSerial(p tplan, c *stats.Case, obs observer) error {
 			}
 			for rep := 0; rep <= op.Rep; rep++ {
 				err := do(&step{Kind: opTrack, Node: n, Found: found}, func() error {
-					d.tab.VerifHandleTrackRequest(n, len(found) > 0, found)
+					d.tab.VerifTrackRequestSync(n, len(found) > 0, found) // through Table.trackRequest, as lookups report
 					return nil
 				})
 				if err != nil {
